@@ -67,9 +67,63 @@ TS = [0, 1, 7, 40]
 PADS = [(0, 0, 0), (1, 1, 2), (2, 0, 1), (0, 2, 0), (0, 0, 3)]
 
 
-def run_line(model, N, nSets, nIn, T, pad, padS, seed, backend='go', warm=1, record=1, pmode='std', probe=0):
-    return 'RUN %s %d %d %d %d %d %d %d %d %d %s %d %d %s %d' % (model, N, nSets, nIn, T, pad[0], pad[1], pad[2], padS, seed, backend,
-                                                           warm, record, pmode, probe)
+def run_line(model, N, nSets, nIn, T, pad, padS, seed, backend='go', warm=1, record=1, pmode='std', probe=0, omode=None, imode=None):
+    l = 'RUN %s %d %d %d %d %d %d %d %d %d %s %d %d %s %d' % (model, N, nSets, nIn, T, pad[0], pad[1], pad[2], padS, seed, backend,
+                                                        warm, record, pmode, probe)
+    if omode or imode:
+        l += ' %s %s' % (omode or 'zero', imode or 'rand')
+    return l
+
+
+KEY_UNWRITTEN = 'output-not-written-on-some-inputs'
+
+
+def gen_stale_output_cases(rng, models, reps=1):
+    """Outputs PRE-FILLED with a stale pattern (NaN payload / large finite value, alternating) - a caller
+    re-using an output array - crossed with DEGENERATE forcing: every input series all zero, each input
+    all zero individually, constant series, cold starts (the model's own InitialiseStates) and warm ones,
+    default and random parameters; every catalogued model, Go- and C-backed.  Reference: single-cell
+    runs on fresh zero arrays."""
+    combos = [('rand', 'std', 1), ('zero', 'std', 0), ('zero', 'def', 0), ('const', 'def', 0), ('zero0', 'std', 0), ('zero1', 'std', 1),
+              ('const', 'std', 1), ('zero2', 'def', 0), ('zero', 'std', 1), ('rand', 'def', 0)]
+    lines = []
+    for m in models:
+        for rep in range(reps):
+            for k, (im, pm, warm) in enumerate(combos[:6] if reps == 1 else combos):
+                N, nSets, nIn = [(3, 2, 2), (2, 1, 1), (3, 3, 1)][(k + rep) % 3]
+                lines.append(run_line(m, N, nSets, nIn, [7, 5][k % 2], PADS[k % len(PADS)], 0, rng.randrange(1 << 30),
+                                      'c' if (k + rep) % 3 == 2 else 'go', warm, 0, pm, 0, 'dirty', im))
+    return lines
+
+
+class UnwrittenOutputs:
+    """Which output series does the kernel leave untouched?  RECORDED, NOT JUDGED.  The repository's contract is that
+    output arrays are handed over zero-initialised (sim.InitialiseOutputs; C04 quantifies over "zero-initialised output
+    arrays"), and the unchanged tree relies on it: BaseflowFilter writes neither output, StorageTrapAll never writes
+    outflowMass, DynamicSednetGully writes generatedFine/Coarse only on active steps, InstreamParticulateNutrient skips
+    loadDeposited on a flushed step.  What IS judged per element (callers of this class): an element the run wrote must be
+    bit-identical to the reference on fresh zero arrays, and an element it left untouched must be 0 in that reference -
+    i.e. on a zero-initialised array the results are those of the single-cell runs, which is what C04 and C03 state."""
+
+    def __init__(self):
+        self.seen = {}      # (model, k) -> {status: example case line}
+
+    def add(self, line, r):
+        u = r.get('unwritten_per_output')
+        if u is None:
+            return
+        n = r.get('elements_per_output') or 0
+        for k, cnt in enumerate(u):
+            st = 'all' if cnt == 0 else 'none' if cnt == n else 'partial'
+            self.seen.setdefault((r['model'], k), {}).setdefault(st, line)
+
+    def report(self, c, pid):
+        never, mixed = [], []
+        for (m, k), sts in sorted(self.seen.items()):
+            if set(sts) == {'all'}:
+                continue
+            (never if set(sts) == {'none'} else mixed).append('%s[%d]' % (m, k))
+        return {'outputs_never_written_by_the_kernel': never, 'outputs_written_only_on_some_inputs': mixed}
 
 
 # shapes for the parameter-position streams: mostly SHARED blocks (one parameter set and / or one
